@@ -19,9 +19,9 @@ use crate::prng::Rng;
 use crate::real::{Cfg, Proto};
 use crate::report::Report;
 
-const HDR: usize = 8 + 2 + 2 + 4 + 4 + 1;
+pub(super) const HDR: usize = 8 + 2 + 2 + 4 + 4 + 1;
 
-fn make_payload(nonce: u64, app: u16, target: u16, seq: u32, len: usize, kind: u8) -> Vec<u8> {
+pub(super) fn make_payload(nonce: u64, app: u16, target: u16, seq: u32, len: usize, kind: u8) -> Vec<u8> {
     let len = len.max(HDR);
     let mut p = Vec::with_capacity(len);
     p.extend_from_slice(&nonce.to_be_bytes());
@@ -37,15 +37,15 @@ fn make_payload(nonce: u64, app: u16, target: u16, seq: u32, len: usize, kind: u
 }
 
 #[derive(Debug, Clone, PartialEq)]
-struct Id {
-    app: u16,
-    target: u16,
-    seq: u32,
-    kind: u8,
+pub(super) struct Id {
+    pub app: u16,
+    pub target: u16,
+    pub seq: u32,
+    pub kind: u8,
 }
 
 /// Parse and verify a datagram payload; Err describes what is wrong with it.
-fn check_payload(nonce: u64, p: &[u8]) -> Result<Id, String> {
+pub(super) fn check_payload(nonce: u64, p: &[u8]) -> Result<Id, String> {
     if p.len() < HDR {
         return Err(format!("short datagram of {} bytes", p.len()));
     }
@@ -71,17 +71,17 @@ fn check_payload(nonce: u64, p: &[u8]) -> Result<Id, String> {
 }
 
 #[derive(Default)]
-struct TargetLog {
+pub(super) struct TargetLog {
     /// (app, seq) -> times received
-    seen: HashMap<(u16, u32), u32>,
-    problems: Vec<String>,
-    tiny: Vec<Vec<u8>>,
+    pub seen: HashMap<(u16, u32), u32>,
+    pub problems: Vec<String>,
+    pub tiny: Vec<Vec<u8>>,
 }
 
-struct Target {
-    idx: u16,
-    port: u16,
-    log: Arc<Mutex<TargetLog>>,
+pub(super) struct Target {
+    pub idx: u16,
+    pub port: u16,
+    pub log: Arc<Mutex<TargetLog>>,
     task: tokio::task::JoinHandle<()>,
 }
 
@@ -92,7 +92,7 @@ impl Drop for Target {
 }
 
 /// Echo target: answers every valid datagram with `replies` reply datagrams (kind=1), the last one from a second socket if asked.
-async fn start_udp_target(nonce: u64, idx: u16, replies: usize, second_port: bool) -> std::io::Result<Target> {
+pub(super) async fn start_udp_target(nonce: u64, idx: u16, replies: usize, second_port: bool) -> std::io::Result<Target> {
     let s = Arc::new(UdpSocket::bind("127.0.0.1:0").await?);
     let port = s.local_addr()?.port();
     let s2 = if second_port { Some(Arc::new(UdpSocket::bind("127.0.0.1:0").await?)) } else { None };
@@ -132,7 +132,7 @@ async fn start_udp_target(nonce: u64, idx: u16, replies: usize, second_port: boo
     Ok(Target { idx, port, log, task })
 }
 
-fn socks5_udp(host: &str, port: u16, data: &[u8]) -> Vec<u8> {
+pub(super) fn socks5_udp(host: &str, port: u16, data: &[u8]) -> Vec<u8> {
     let mut v = vec![0u8, 0, 0];
     if let Ok(ip) = host.parse::<std::net::Ipv4Addr>() {
         v.push(1);
@@ -148,7 +148,7 @@ fn socks5_udp(host: &str, port: u16, data: &[u8]) -> Vec<u8> {
 }
 
 /// (labelled address, payload) of a SOCKS5-UDP datagram from the client
-fn socks5_udp_parse(b: &[u8]) -> Option<(String, u16, &[u8])> {
+pub(super) fn socks5_udp_parse(b: &[u8]) -> Option<(String, u16, &[u8])> {
     if b.len() < 4 || b[2] != 0 {
         return None;
     }
